@@ -15,6 +15,7 @@ type Reader struct {
 	One   bool  // every read returns at most one byte
 	Zero  bool  // a zero-length read precedes every data read
 	First int   // if >0, the very first data read returns at most First bytes
+	EOF   bool  // the read that delivers the last byte also returns io.EOF (allowed by io.Reader)
 	zflag bool
 	Reads int
 }
@@ -52,6 +53,9 @@ func (c *Reader) Read(p []byte) (int, error) {
 	}
 	copy(p, c.B[c.Pos:c.Pos+n])
 	c.Pos += n
+	if c.EOF && c.Pos == len(c.B) {
+		return n, io.EOF
+	}
 	return n, nil
 }
 
@@ -82,11 +86,12 @@ type Chunking struct {
 	One   bool
 	Zero  bool
 	First int
+	EOF   bool
 }
 
 // New instantiates a reader for b.
 func (c Chunking) New(b []byte) *Reader {
-	return &Reader{B: b, Cuts: c.Cuts, One: c.One, Zero: c.Zero, First: c.First}
+	return &Reader{B: b, Cuts: c.Cuts, One: c.One, Zero: c.Zero, First: c.First, EOF: c.EOF}
 }
 
 // All enumerates segmentations of an n-byte input. Basic: whole, all-1-byte,
@@ -94,7 +99,8 @@ func (c Chunking) New(b []byte) *Reader {
 // every pair of cuts.
 func All(n int, cuts1, cuts2 bool) []Chunking {
 	out := []Chunking{{Name: "whole"}, {Name: "1byte", One: true}, {Name: "first1", First: 1},
-		{Name: "whole+zero", Zero: true}, {Name: "1byte+zero", One: true, Zero: true}}
+		{Name: "whole+zero", Zero: true}, {Name: "1byte+zero", One: true, Zero: true},
+		{Name: "whole+eof-with-data", EOF: true}, {Name: "1byte+eof-with-data", One: true, EOF: true}}
 	if cuts1 {
 		for i := 1; i < n; i++ {
 			out = append(out, Chunking{Name: fmt.Sprintf("cut%d", i), Cuts: []int{i}})
